@@ -435,6 +435,17 @@ def run(ctx):
         hrp, v, s = gen_valid(rnd)
         edits, etag = gen_subst(rnd, s)
         judge_D_subst(ctx, {"addr": s, "hrp": hrp, "edits": edits, "etag": etag})
+    # Unicode confusables: characters that BECOME the right character under lower()/upper()/casefold()/NFKC
+    # (KELVIN SIGN -> k, LONG S -> s, fullwidth/mathematical letters and digits), in lower- and upper-case addresses
+    for _ in range(ctx.scale(2400, 300000)):
+        hrp, v, s = gen_valid(rnd)
+        form = s.upper() if rnd.random() < 0.5 else s
+        sep = form.rfind("1")
+        where = rnd.choice(["data", "data", "hrp", "any"])
+        pos = range(sep + 1, len(form)) if where == "data" else (range(0, sep) if where == "hrp" else range(len(form)))
+        t, nrep = gen.confuse(rnd, form, positions=list(pos))
+        if nrep:
+            judge_D_diff(ctx, {"hrp": hrp, "s": t, "tag": "confusable-%s-%s" % ("upper" if form != s else "lower", where)})
     for _ in range(ctx.scale(4000, 1000000)):
         hrp, v, s = gen_valid(rnd)
         if rnd.random() < 0.15:
